@@ -151,6 +151,9 @@ def _z3_check(hyps, neg, nl, timeout_ms):
 def prove(ob, axioms=(), timeout_ms=60000, use_external=True):
     """Portfolio: z3 API briefly, then cvc5 and z3 4.8 on the dump, then z3 API with the full budget."""
     t0 = time.time()
+    if not ob.expect_sat and (z3.is_true(ob.goal) or z3.is_true(z3.simplify(ob.goal))):
+        # the clause was decided while the path was executed (a Python-level fact about the trace / heap shape)
+        return Result(ob, "discharged", "by-evaluation", 0.0)
     # beta-reduce applications of lambda terms (set/dict algebra) before anything else: z3's array theory gives
     # up at once ("incomplete (theory array)") on nested lambdas that the rewriter removes trivially
     ob.hyps = [_beta(h) for h in ob.hyps]
